@@ -154,3 +154,231 @@ def diff_keys(a, b):
 
 
 register(C10)
+
+
+# ========================================================================================= C11
+
+def table_rows(df):
+    if df is None:
+        return None
+    cols = [c for c in df.columns if not str(c).endswith('-algtime') and c != 'config']
+    d = df[cols]
+    return {'cols': [str(c) for c in cols], 'index': [str(i) for i in d.index],
+            'rows': json.loads(json.dumps(d.astype(object).where(d.notna(), None).values.tolist(), default=str))}
+
+
+def first_diff(a, b, what):
+    if a == b:
+        return None
+    if a is None or b is None:
+        return f"{what}: one side missing"
+    if a['cols'] != b['cols']:
+        return f"{what}: columns differ {sorted(set(a['cols']) ^ set(b['cols']))}"
+    if len(a['rows']) != len(b['rows']):
+        return f"{what}: {len(a['rows'])} rows vs {len(b['rows'])} rows"
+    for i, (x, y) in enumerate(zip(a['rows'], b['rows'])):
+        if x != y:
+            cols = [a['cols'][j] for j in range(len(x)) if x[j] != y[j]]
+            return f"{what}: row {i} ({a['index'][i]}) differs in {cols[:4]}: {[x[a['cols'].index(c)] for c in cols[:4]]} vs {[y[a['cols'].index(c)] for c in cols[:4]]}"
+    if a['index'] != b['index']:
+        return f"{what}: row labels differ"
+    return f"{what}: differ"
+
+
+def run_controlled(sc, mode, points=None, runtime=None, misuse=False):
+    """mode 'full' -> start(); 'runtime' -> start(runtime); 'paused' -> start(points[0]) + resume(points[1:])
+    with misuse=True also tries resume-before-start and start-twice and records whether they were
+    refused and changed nothing"""
+    import shutil
+    from . import trace as T
+    from .runner import build, quiet
+    from .scenario import step_budget
+    d = tempfile.mkdtemp(prefix='vt11_')
+    notes = []
+    cwd = os.getcwd()
+    try:
+        os.chdir(d)
+        with quiet():
+            sim, env = build(sc, '.', budget=step_budget(sc) + 10)
+        tr = T.Trace(sc, sim, env)
+        T.wrap_algorithm(tr, sim.scheduler.algorithm)
+        tr.snaps[0] = tr.snapshot()
+        T.CURRENT = tr
+
+        def state():
+            return (env.now, env.seq, len(sim.monitor.df), len(sim.monitor.events), len(tr.allocs), sim.running)
+        try:
+            with quiet():
+                if misuse:
+                    s0 = state()
+                    try:
+                        sim.resume(until=3)
+                        notes.append(O.V('C11', 'resume_before_start_accepted', "resume() before start() did not raise"))
+                    except RuntimeError:
+                        pass
+                    if state() != s0:
+                        notes.append(O.V('C11', 'resume_before_start_changed_state', f"refused resume() changed state {s0} -> {state()}"))
+                if mode == 'full':
+                    sim.start()
+                elif mode == 'runtime':
+                    sim.start(runtime=runtime)
+                else:
+                    sim.start(runtime=points[0])
+                    for i, until in enumerate(points[1:]):
+                        if misuse and i == 0:
+                            s1 = state()
+                            try:
+                                sim.start()
+                                notes.append(O.V('C11', 'second_start_accepted', "start() on a started simulation did not raise"))
+                            except RuntimeError:
+                                pass
+                            if state() != s1:
+                                notes.append(O.V('C11', 'second_start_changed_state', f"refused second start() changed state {s1} -> {state()}"))
+                        sim.resume(until=until)
+                if misuse and mode != 'paused':
+                    s1 = state()
+                    try:
+                        sim.start()
+                        notes.append(O.V('C11', 'second_start_accepted', "start() on a finished simulation did not raise"))
+                    except RuntimeError:
+                        pass
+                    if state() != s1:
+                        notes.append(O.V('C11', 'second_start_changed_state', f"refused second start() changed state {s1} -> {state()}"))
+            tr.status = 'completed'
+        except T.StepBudgetExceeded:
+            tr.status = 'budget'
+        except Exception as e:
+            if T.harness_frame_innermost(e):
+                raise
+            tr.status = 'raised'
+            tr.exc_sig = f"{type(e).__name__}@{T.repo_frame(e)}"
+        finally:
+            T.CURRENT = None
+        tr.final_now = env.now
+        res = {'status': tr.status, 'sig': getattr(tr, 'exc_sig', None), 'end': env.now,
+               'df': table_rows(sim.monitor.df), 'events': table_rows(sim.monitor.events),
+               'tasks': table_rows(sim._generate_final_task_data()) if tr.status == 'completed' else None,
+               'snaps': {str(k): v for k, v in sorted(tr.snaps.items())},
+               'busy_at': {}, 'tr': tr}
+        return res, notes
+    finally:
+        os.chdir(cwd)
+        shutil.rmtree(d, ignore_errors=True)
+
+
+def compare_runs(ref, cand, label):
+    out = []
+    if ref['status'] != cand['status'] or ref['sig'] != cand['sig']:
+        return [O.V('C11', 'status_differs', f"{label}: reference {ref['status']} {ref['sig']} vs paused {cand['status']} {cand['sig']}")]
+    if ref['end'] != cand['end']:
+        out.append(O.V('C11', 'clock_differs', f"{label}: end clock {ref['end']} vs {cand['end']}"))
+    for k, part in (('df', 'table_differs'), ('events', 'event_log_differs'), ('tasks', 'task_table_differs')):
+        d = first_diff(ref[k], cand[k], k)
+        if d:
+            out.append(O.V('C11', part, f"{label}: {d}"))
+    if ref['snaps'] != cand['snaps']:
+        ks = [k for k in sorted(set(ref['snaps']) | set(cand['snaps']), key=int) if ref['snaps'].get(k) != cand['snaps'].get(k)]
+        out.append(O.V('C11', 'trajectory_differs', f"{label}: shadow state differs at steps {ks[:5]}"))
+    return out
+
+
+class C11:
+    prop = 'C11'
+    cases = {'quick': 180, 'thorough': 2400}
+    technique = "differential property-based testing: start(k)+resume(...) versus one uninterrupted run of the same generated scenario"
+    rule = ("scenario x pause point k x split of the remainder into resume segments x tail (0..3 steps past completion); the reference is "
+            "an uninterrupted start() (tail 0) or start(runtime=T+tail); each case also attempts resume() before start() and a second "
+            "start(); thorough additionally enumerates EVERY pause point k in 1..T-1 for scenarios with T <= 40; non-trivial = the pause "
+            "point lies strictly inside an ingest or a workflow (an allocation is active in the shadow model at step k); distinct = "
+            "distinct canonical (scenario, pause points, tail) JSON")
+    level_text = ("exploration: per-timestep table (minus *-algtime), task table, event log, end clock and the shadow model's per-step "
+                  "snapshots must be identical between the paused/resumed run and the uninterrupted reference; misuse must raise "
+                  "RuntimeError and leave clock, tables and processed-event count unchanged")
+    assumptions = SimSpec.assumptions
+
+    def strategy(self, tier):
+        kw = dict(max_machines=5, max_obs=3, max_nodes=6) if tier == 'quick' else dict(max_machines=8, max_obs=4, max_nodes=10)
+        base = scenarios(delays=True, **kw)
+        return st.tuples(base, st.lists(st.floats(0.02, 0.98), min_size=1, max_size=3), st.sampled_from([0, 0, 0, 1, 3])).map(
+            lambda t: {'sc': t[0], 'frac': t[1], 'tail': t[2]})
+
+    def body(self, case, state):
+        sc = case['sc']
+        state.evaluations += 1
+        full, n0 = run_controlled(sc, 'full', misuse=True)
+        out = list(n0)
+        state.count(f"alg={sc['alg']['kind']}")
+        if full['status'] != 'completed':
+            state.aborted += 1
+            state.count(f"reference_{full['status']}")
+            for v in out:
+                v['sig'] = v['part']
+            return state.split_known(out)
+        T_ = int(full['end'])
+        tail = case.get('tail', 0)
+        if 'points' in case:
+            pts = [p for p in case['points'] if 0 < p < T_ + tail]
+        else:
+            pts = sorted({max(1, min(T_ + tail - 1, int(f * (T_ + tail)))) for f in case['frac']}) if T_ + tail > 1 else []
+        if not pts:
+            state.count('too_short_to_pause')
+            return []
+        cand, n1 = run_controlled(sc, 'paused', points=pts + [T_ + tail], misuse=True)
+        out += n1
+        if tail == 0:
+            out += compare_runs(full, cand, f"pause at {pts}, uninterrupted start()")
+        else:
+            ref, _ = run_controlled(sc, 'runtime', runtime=T_ + tail)
+            out += compare_runs(ref, cand, f"pause at {pts}, start(runtime={T_ + tail})")
+        # also: start(runtime=T) must equal start()
+        if tail == 0 and case.get('check_runtime', True) and len(pts) == 1:
+            ref2, _ = run_controlled(sc, 'runtime', runtime=T_)
+            for v in compare_runs(full, ref2, f"start(runtime={T_}) vs start()"):
+                v['part'] = 'runtime_' + v['part']
+                out.append(v)
+        state.count(f"segments={len(pts) + 1}")
+        state.count(f"tail={tail}")
+        snaps = full['snaps']
+        inside = any(snaps.get(str(p), {}).get('running_tasks', 0) > 0 for p in pts)
+        if inside:
+            state.count('pause_inside_activity')
+            state.nontrivial.add(case_hash({'sc': sc, 'pts': pts, 'tail': tail}))
+            state.sample({'scenario': brief(sc), 'completion': T_, 'pause_points': pts, 'tail': tail,
+                          'rows': len(full['df']['rows']), 'log_entries': len(full['events']['rows'])})
+        for v in out:
+            v['sig'] = v['part']
+        return state.split_known(out)
+
+    def replay_case(self, case, state):
+        return self.body(case, state)
+
+    def run_shard(self, state, tier, seed, shard, nshards, cases=None):
+        total = cases or self.cases[tier]
+        run_given(state, self.strategy(tier), self.body, max(1, total // nshards), shard_seed(seed, self.prop, shard))
+        if state.failures or tier != 'thorough':
+            return
+        # every pause point of a few generated scenarios
+        from .engine import ShardState
+        collected = []
+        tmp = ShardState(self.prop, tier, known=[])
+
+        def collect(case, st_):
+            collected.append(case['sc'])
+            return []
+        run_given(tmp, self.strategy(tier), collect, 6, shard_seed(seed, self.prop, shard, 'enum'), shrink=False)
+        n = 0
+        for sc in collected:
+            full, _ = run_controlled(sc, 'full')
+            if full['status'] != 'completed' or full['end'] > 40:
+                continue
+            for k in range(1, int(full['end'])):
+                n += 1
+                case = {'sc': sc, 'points': [k], 'tail': 0, 'check_runtime': False}
+                bad = self.body(case, state)
+                if bad:
+                    state.failures.append((case, bad))
+                    return
+        state.extra['all_pause_points_cases'] = n
+
+
+register(C11)
